@@ -41,7 +41,9 @@ class StreamBoard(Board):
         pos = self.pos[ci]
         w = words[pos]
         self.pos[ci] = pos + 1
-        if r.cpsr.j:
+        cfg = spec.get('config') or {}
+        if r.cpsr.j and not ((cfg.get('have_thumbee') and r.cpsr.t) or (cfg.get('have_jazelle') and not r.cpsr.t)):
+            # Jazelle / ThumbEE state is only a valid machine state when the configuration has the extension
             r.cpsr.j = 0
             self.count('probe.j-cleared')
         if arm.is_wait_for_interrupt or arm.is_wait_for_event:
